@@ -220,6 +220,10 @@ func runCheck(id, tier string, seed int, repo string, overlay map[string][]byte,
 		}
 		encs[name] = enc
 		obls = append(obls, enc.obls...)
+		for _, oc := range enc.orphanClauses {
+			undecided = append(undecided, "orphan: "+oc)
+			fmt.Fprintf(w, "UNDECIDED orphan %s\n", oc)
+		}
 	}
 	// lemmas
 	lemObls, lerr := eng.LemmaObligations(cfg.Lemmas)
